@@ -355,6 +355,86 @@ def buflen(ol):
 
 
 # ---------------------------------------------------------------------------
+# C20  frames racing a local reset never break the connection
+# ---------------------------------------------------------------------------
+def oracle_C20(run):
+    """a delivery that consists only of whole, wire-valid frames for streams the receiving endpoint has reset itself
+    (reset_stream calls that succeeded), whose header blocks decode, whose DATA fits the connection window and the
+    frame size, must not raise and must not produce header / data / end-of-stream / push events for those streams -
+    before and after the closed stream was cleaned out of the table (within the closed-stream memory)."""
+    out = []
+    reset = {}
+    for i, (op, ol, ml, obs) in enumerate(run.log):
+        o = op['op']
+        if o == 'new':
+            reset[op['c']] = set()
+            continue
+        if obs is None:
+            continue
+        r = res(obs)
+        if o == 'reset_stream' and r[0] == 'ok' and isinstance(op.get('sid'), int):
+            reset.setdefault(op.get('c', 0), set()).add(op['sid'])
+            continue
+        if not is_recv(op):
+            continue
+        c = conn_of(op)
+        R = reset.get(c) or set()
+        if not R:
+            continue
+        sb = obs['snap_before']
+        if sb['state'] in ('CLOSED', 'IDLE') or sb.get('closed') is None or not before_buf_empty(run, i, c):
+            continue
+        data = obs.get('xfer_data') if o == 'xfer' else op['data']
+        rfs = raw_frames(data)
+        if not rfs:
+            continue
+        try:
+            fs = [wire.decode_frame(f) for f in rfs]
+        except wire.WireError:
+            continue
+        ok = True
+        total = 0
+        for f in fs:
+            if f['sid'] not in R or f['len'] > sb['max_in']:
+                ok = False
+                break
+            # still remembered as closed by our reset (the memory is bounded)
+            if f['sid'] in sb['streams']:
+                if sb['streams'][f['sid']][1] != 'SEND_RST_STREAM':
+                    ok = False
+                    break
+            elif sb['closed'].get(f['sid']) != 'SEND_RST_STREAM':
+                ok = False
+                break
+            if f['type'] == wire.DATA:
+                total += f['len']
+            elif f['type'] == wire.HEADERS:
+                if not f['end_headers']:
+                    ok = False
+                    break
+            elif f['type'] in (wire.WINDOW_UPDATE, wire.RST_STREAM):
+                pass
+            else:
+                ok = False          # PUSH_PROMISE (role and id rules), PRIORITY self-dependency, CONTINUATION, ...
+                break
+        if not ok or total > sb['in_win']:
+            continue
+        if any(rec['res'][0] != 'ok' for rec in (obs.get('dec_recs') or [])):
+            continue
+        if r[0] != 'ok':
+            out.append(fail('frame-racing-local-reset-broke-the-connection', i, res=obs['res'],
+                            frames=[(f['name'], f['sid']) for f in fs][:6]))
+            continue
+        for e in obs['raw_events']:
+            nm = type(e).__name__
+            if nm in ('RequestReceived', 'ResponseReceived', 'TrailersReceived', 'InformationalResponseReceived', 'DataReceived',
+                      'StreamEnded', 'PushedStreamReceived') and getattr(e, 'stream_id', None) in R:
+                out.append(fail('event-for-a-locally-reset-stream', i, event=nm, sid=e.stream_id))
+                break
+    return out
+
+
+# ---------------------------------------------------------------------------
 # C19  a closed connection stays quiet
 # ---------------------------------------------------------------------------
 def oracle_C19(run):
@@ -2228,5 +2308,5 @@ ORACLES = {
     'C01': oracle_C01_v2,
     'C02': oracle_C02, 'C03': oracle_C03, 'C04': oracle_C04, 'C05': oracle_C05, 'C07': oracle_C07, 'C08': oracle_C08,
     'C09': oracle_C09, 'C10': oracle_C10, 'C11': oracle_C11, 'C12': oracle_C12, 'C14': oracle_C14, 'C15': oracle_C15, 'C16': oracle_C16, 'C13': oracle_C13, 'C17': oracle_C17, 'C18': oracle_C18,
-    'C19': oracle_C19, 'C21': oracle_C21, 'C22': oracle_C22, 'C24': oracle_C24, 'C25': oracle_C25, 'C26': oracle_C26, 'C27': oracle_C27, 'C29': oracle_C29,
+    'C19': oracle_C19, 'C20': oracle_C20, 'C21': oracle_C21, 'C22': oracle_C22, 'C24': oracle_C24, 'C25': oracle_C25, 'C26': oracle_C26, 'C27': oracle_C27, 'C29': oracle_C29,
 }
